@@ -2001,6 +2001,10 @@ def run(ctx):
                            [73, [[4, 6, 50], 6000, 4, [[-1, 2]], 0, [[[-1, 4], [2, 8]]], [[4], [6], [50]]]],
                            [73, [[10, 7], 13, 2, [[0, 17]], 1, [[[0, 5]]], []]], [73, [[10, 7], 13, 2, [], 1, [], []]],
                            [7, [5, codes('/a_b/c_d/00000_00001.npy')]],
+                           [74, [1, codes('/b_u/pre_x/'), [codes('w_c/00000_00001.npy'), codes('a//b/./x y'), codes('/abs/../p%q')]]],
+                           [74, [1, codes(''), [codes('b_k/w_c/00000.npy'), codes('b_k')]]],
+                           [74, [2, 1, codes('/bkt/'), [[0, codes('w_c'), [0], 1], [0, codes('w-c'), [0], 2], [1, codes('w_c'), [0]],
+                                                         [2, codes('w_c')], [3, codes('w-c')], [3, codes('w_c')], [1, codes('a//b'), [5, -1]]]]],
                            [71, [1, [2, 3], 1]], [71, [2, [2, 3, 2], 1]], [71, [2, [], 1]],
                            [72, [2, [[0, codes('x'), 7, 1, [[2, 2]], [0], 0], [0, codes('x'), 7, 2, [[2, 2]], [4], 4000],
                                      [1, codes('x'), 7, 1, [[2, 2]], [0], 0]],
